@@ -106,14 +106,15 @@ pub fn main(path: &str) -> i32 {
                 println!("this case is replayed by re-running its check (deterministic enumeration); no history recorded");
                 return 0;
             }
+            crate::srv::REPLAY_OUTPUT_YIELDS.store(c["output_yields"].as_u64().unwrap_or(0) as u8, std::sync::atomic::Ordering::Relaxed);
             let (sp, expected) = crate::checks::c13::spec(n, leader, &consts, outs);
             let pols = vec![crate::srv::make_policies(&sp, crate::srv::comp_id(1, 1))];
             let policy = if history.iter().any(|e| matches!(e, crate::srv::Ev::Msg { .. })) { crate::srv::MsgPolicy::Explicit } else { crate::srv::MsgPolicy::Eager };
             match crate::srv::run_history(n, 1, pols, history, policy, 1, false) {
                 Ok(s) => {
                     println!("expected result: {expected}");
-                    println!("outputs: {:?}", s.outputs.iter().map(|o| (o.party, o.result.clone())).collect::<Vec<_>>());
-                    println!("calls: {:?}", s.calls.iter().map(|c| (c.what.clone(), c.party, c.result.clone())).collect::<Vec<_>>());
+                    println!("outputs (party, result, completed at): {:?}", s.outputs.iter().map(|o| (o.party, o.result.clone(), o.seq)).collect::<Vec<_>>());
+                    println!("calls (what, party, result, returned at): {:?}", s.calls.iter().map(|c| (c.what.clone(), c.party, c.result.clone(), c.seq)).collect::<Vec<_>>());
                     println!("alive: {:?} permits: {:?} panicked: {:?}", s.actors_alive, s.permits, s.actors_finished.iter().filter(|a| a.2).collect::<Vec<_>>());
                     0
                 }
